@@ -5,7 +5,10 @@ package par2
 
 import (
 	rt "github.com/akalin/gopar/internal/zzverifrt"
+	"io"
+	"os"
 	"strings"
+	"syscall"
 )
 
 func init() {
@@ -184,6 +187,13 @@ func VerifHarness_C18_verify_faults() {
 		s.fs.failFindN = 1 + rt.Choice("listing#", nFinds)
 	} else {
 		s.fs.failRead = 1 + rt.Choice("read#", nReads)
+		// what the failed read reports: only "does not exist" may be taken for a missing file
+		s.fs.faultErr = []error{nil,
+			&os.PathError{Op: "open", Path: "x", Err: syscall.ENAMETOOLONG},
+			&os.PathError{Op: "open", Path: "x", Err: syscall.EACCES},
+			&os.PathError{Op: "read", Path: "x", Err: syscall.EISDIR},
+			&os.PathError{Op: "read", Path: "x", Err: syscall.EIO},
+			io.ErrUnexpectedEOF}[rt.Choice("errno", 6)]
 	}
 	before := len(s.fs.writes)
 	_, err := verify(s.fs, scnIndex, VerifyOptions{NumGoroutines: 1})
